@@ -323,7 +323,8 @@ class World:
             n = {"VERTEX": getattr(o, "n_vertices", None), "CELL": getattr(o, "n_cells", None)}.get(assoc) or 2
             known = {id(e) for e in self.side.values()}
             try:
-                o.add_data({nm(a["n"]): {"values": self.values(1, n, "float"), "association": assoc}}, compression=10)
+                # (the data kind of the behaviour: a later SetType only ever joins data of one primitive type)
+                o.add_data({nm(a["n"]): {"values": self.values(1, n), "association": assoc}}, compression=10)
             finally:
                 new = [c for c in o.children if not _is_pg(c) and id(c) not in known]
                 if len(new) == 1:
